@@ -35,7 +35,7 @@ ASCII_WS = " \t\n"
 def plan(tier, seed):
     if tier == "quick":
         return [{"docs": 2500}]
-    return [{"docs": 10000, "salt": i} for i in range(16)]
+    return [{"docs": 35000, "salt": i} for i in range(32)]
 
 
 def policy(s, clean, collapse, literal, ctx=None):
